@@ -107,6 +107,11 @@ def run_shard(prop, spec_path, out_path):
         cases = json.load(f)
     timeout = getattr(mod, 'CASE_TIMEOUT', 20)
     signal.signal(signal.SIGALRM, _alarm)
+    # the working directory of a shard is a scratch directory of its own (removed with the run's scratch tree): code under test
+    # that wrongly writes next to the process instead of next to the destination must not litter the checkout
+    wd = out_path + '.cwd'
+    os.makedirs(wd, exist_ok=True)
+    os.chdir(wd)
     with open(out_path, 'w') as out:
         for params in cases:
             t0 = time.time()
